@@ -211,8 +211,13 @@ pub fn get_range( attr_str: &str, n: &NestedArgument)
                     if let Some(mut file_start) = attr_str[n.start..=open].find(crate::FILE){
                         file_start             = file_start + n.start;
                         let head = file_start..open+1;
-                        let tail = close..close+1;
-                        return vec![(file_start,head),(close,tail)];
+                        // a trailing comma inside `file( .. ,)` goes with the closing parenthesis
+                        let tail_start = attr_str.get(open+1..close)
+                            .map(|inner| inner.trim_end())
+                            .filter(|inner| inner.ends_with(','))
+                            .map_or(close,|inner| open + inner.len());
+                        let tail = tail_start..close+1;
+                        return vec![(file_start,head),(tail_start,tail)];
                     } else { msg = "Internal Error.`parse::nested::get_range`. Expected `file` nested argument.";}
 
                 } else { return vec![(open,open..close+1)] }
